@@ -54,6 +54,11 @@ def judge_message(ctx, t, a, tm, builder='ctor'):
                     'time': repr(tm), 'builder': builder}
     if builder == 'ctor':
         m = Message(t, time=tm, **a)
+        if (len(repr(a)) + len(repr(tm))) % 3 == 0:
+            # edits that are rejected, and everyday handling, leave no trace in what the conversions show
+            from .. import abuse
+            abuse.failed_edits(m)
+            abuse.handle(m)
     else:
         # a valid message built with skip_checks=True (values are valid, containers vary)
         kw = dict(a)
@@ -89,9 +94,15 @@ def judge_message(ctx, t, a, tm, builder='ctor'):
         ctx.fail('from_str(str(m)) == m', f'str-raised:{t}', case, f'{type(exc).__name__}: {exc}')
     try:
         d = m.dict()
+        import copy as _copy
+        d0 = _copy.deepcopy(d)
         back = Message.from_dict(d)
         ctx.check('from_dict(m.dict()) == m', eq_typed(back, m), f'dict:{t}', case,
                   lambda: {'dict': repr(d)[:160]})
+        # the caller's dictionary is only read: it is what it was, and converts again to the same message
+        again = Message.from_dict(d) if d == d0 else None
+        ctx.check('from_dict(m.dict()) == m', d == d0 and eq_typed(again, m) and again is not back, f'dict-argument-changed:{t}', case,
+                  lambda: {'dict_before': repr(d0)[:160], 'dict_after': repr(d)[:160]})
         # the dict is a snapshot: changing it does not change the message
         before = dict(vars(m))
         d['time'] = 424242
